@@ -19,7 +19,7 @@ KINDS_LITM = ["o_tags8a", "o_tags8b", "o_tags_rep", "o_tag_uni", "o_k"]
 KINDS_ORDER = ["absent", "null", "int", "float", "bool", "s_abc", "l_int", "o_k"]
 KINDS_DBG = ["int", "float"]
 KINDS_NEST = ["absent", "null", "o_k", "o_kj", "l_objs", "l_obj_xy", "l_objs_xy_x", "o_xy", "o_xyz", "l_empty", "o_empty", "s_abc",
-              "o_parent1", "o_parent2"]
+              "o_parent1", "o_parent2", "l_objs_xys_x"]
 
 ATOMS = {"s_abc": "abc", "s_xyz": "xyz", "s_int": "12", "s_float": "1.5", "s_bool": "true", "s_long": LONG, "s_empty": "",
          "s_date": "2020-01-02", "s_time": "11:22:33", "s_datetime": "2020-01-02T11:22:33", "s_near": NEAR, "s_int2": "-7",
@@ -81,6 +81,8 @@ def build(ch, tag, kind, sym=False):
     if kind == "l_objs_xy_x":
         return [{"x": leaf(ch, tag + "[0].x", "int", sym), "y": leaf(ch, tag + "[0].y", "int", sym)},
                 {"x": leaf(ch, tag + "[1].x", "int", sym)}]
+    if kind == "l_objs_xys_x":
+        return [{"x": leaf(ch, tag + "[0].x", "int", sym), "y": "abc"}, {"x": leaf(ch, tag + "[1].x", "int", sym)}, {"x": 1, "y": None}]
     if kind == "o_xy":
         return {"x": leaf(ch, tag + ".x", "int", sym), "y": leaf(ch, tag + ".y", "int", sym)}
     if kind == "o_xyz":
